@@ -364,14 +364,17 @@ def run(ctx: Ctx, tier: str) -> Result:
     ps = p.func("deep.processor.frame_collector.FrameCollector.parse_short_name")
     pt = Table(ctx, ps)
     fnp = P(ps, 1)
-    good = False
+    cut_rows = good_rows = 0
     for r in pt.rows:
         if r.kind == "return" and isinstance(r.result, ast.Tuple) and isinstance(r.result.elts[0], ast.Subscript):
+            cut_rows += 1
             sl = r.result.elts[0]
             if norm(sl.value) == fnp and isinstance(sl.slice, ast.Slice) and sl.slice.upper is None and sl.slice.lower is not None \
                     and isinstance(sl.slice.lower, ast.Call) and norm(sl.slice.lower.func) == "len" \
                     and "is_app_frame(%s)[1]" % fnp in norm(sl.slice.lower):
-                good = True
+                good_rows += 1
+    # on every path that cuts the name, exactly the matched prefix is cut
+    good = cut_rows > 0 and good_rows == cut_rows
     if good:
         res.ok("C19.FRAME", {"short path": "filename[len(matched prefix):]"})
     else:
